@@ -101,6 +101,8 @@ class ConcRunner:
         def body(c):
             cache = self.caches[cid]
             its = []
+            depth = [0]
+            resume = [0]
             i = 0
             n = len(ops)
 
@@ -113,17 +115,38 @@ class ConcRunner:
                     if name == 'txbegin':
                         self.sched.yield_point('call', name)
                         self.sched.emit({'ev': 'call', 'c': cid, 'op': 'txbegin', 'a': {}, 'now': self.clock.tick})
+                        via = self.cfg.get('txvia', 'cache')
+                        if via == 'deque':
+                            txobj = self.dc.Deque.fromcache(cache).transact()
+                        elif via == 'index':
+                            txobj = self.dc.Index.fromcache(cache).transact()
+                        else:
+                            txobj = cache.transact(retry=bool(a.get('retry', 1)))
+                        depth[0] += 1
                         try:
-                            with cache.transact(retry=bool(a.get('retry', 1))):
+                            with txobj:
                                 self.sched.emit({'ev': 'ret', 'c': cid, 'ret': R('none')})
                                 i = run_from(i)
                                 self.sched.yield_point('call', 'txend')
                                 self.sched.emit({'ev': 'call', 'c': cid, 'op': 'txend', 'a': {}, 'now': self.clock.tick})
+                            depth[0] -= 1
                             self.sched.emit({'ev': 'ret', 'c': cid, 'ret': R('none')})
                         except ProgramAbort:
+                            depth[0] -= 1
+                            if depth[0] > 0:
+                                raise                    # unwinds every enclosing block
                             self.sched.emit({'ev': 'ret', 'c': cid, 'ret': R('aborted')})
+                            i = resume[0]
                         except self.dc.Timeout:
+                            depth[0] -= 1
                             self.sched.emit({'ev': 'ret', 'c': cid, 'ret': R('Timeout')})
+                            i = n                        # the plan assumed the block was entered: stop here
+                        except sched.Stop:
+                            raise
+                        except Exception as exc:         # the library failed at block entry/exit: recorded, judged by the monitor
+                            depth[0] -= 1
+                            self.sched.emit({'ev': 'ret', 'c': cid, 'ret': R(type(exc).__name__)})
+                            i = n
                         continue
                     if name == 'txend':
                         return i
@@ -155,7 +178,10 @@ class ConcRunner:
                         continue
                     if name == 'txraise':
                         self.sched.yield_point('call', name)
+                        if depth[0] == 0:
+                            continue
                         self.sched.emit({'ev': 'call', 'c': cid, 'op': 'txraise', 'a': {}, 'now': self.clock.tick})
+                        resume[0] = i
                         raise ProgramAbort()
                     self.sched.yield_point('call', name)
                     if name == 'tick':
